@@ -106,55 +106,86 @@ func (e *Env) modelDecodeOne(l *facts.Level, rule string) *decodeOneModel {
 	}
 	m.Leaves = leaves
 	str := &ir.Term{Op: ir.OParam, N: 1}
-	// the split of the token
+	// the tokeniser: strings.Split(token, ":") with the shape test len == 2 && both parts non-empty, or
+	// strings.Cut(token, ":") with found && !strings.Contains(after, ":") && both parts non-empty. The two accept
+	// the same tokens (exactly one ':' with something on either side) and yield the same two parts.
+	var cut *ir.Term
 	for _, lf := range leaves {
 		for _, ef := range lf.Effects {
-			if ef.Kind == "call" && (isCallOf(ef.Val, "strings.Split") || isCallOf(ef.Val, "strings.SplitN")) {
+			if ef.Kind != "call" {
+				continue
+			}
+			switch {
+			case isCallOf(ef.Val, "strings.Split") || isCallOf(ef.Val, "strings.SplitN"):
 				if m.Split == nil {
 					m.Split = ef.Val
 				} else if m.Split.Key() != ef.Val.Key() {
 					c.Undecided(rule, who, e.P.Pos(ef.Pos), "more than one strings.Split in decodeOne")
 					return m
 				}
+			case isCallOf(ef.Val, "strings.Cut"):
+				if cut == nil {
+					cut = ef.Val
+				} else if cut.Key() != ef.Val.Key() {
+					c.Undecided(rule, who, e.P.Pos(ef.Pos), "more than one strings.Cut in decodeOne")
+					return m
+				}
 			}
 		}
 	}
-	if m.Split == nil {
-		c.Undecided(rule, who, pos, "no strings.Split of the token found")
+	if (m.Split == nil) == (cut == nil) {
+		c.Undecided(rule, who, pos, "the token is not taken apart by exactly one strings.Split or strings.Cut")
 		return m
 	}
-	sepOK := len(m.Split.Args) >= 2 && m.Split.Args[0].Key() == str.Key() && m.Split.Args[1].Op == ir.OConst && m.Split.Args[1].C != nil && m.Split.Args[1].C.Kind() == constant.String && constant.StringVal(m.Split.Args[1].C) == ":"
-	c.Check(sepOK, "token-split", who, e.P.Pos(m.Split.Pos), `the unmodified token is split at ":"`, "the token is not split as strings.Split(<unmodified parameter>, \":\"): "+m.Split.Pretty())
-	// strings.SplitN(token, ":", n) with 0 <= n <= 2 folds extra colons into the value part: the accepted
-	// language is unchanged (no value code contains ':'), but a token with an extra colon is then no longer
-	// classified as malformed (C11).
-	if isCallOf(m.Split, "strings.SplitN") {
-		n, okN := int64(-1), false
-		if len(m.Split.Args) == 3 && m.Split.Args[2].Op == ir.OConst && m.Split.Args[2].C != nil {
-			n, okN = constant.Int64Val(m.Split.Args[2].C)
-		}
-		switch {
-		case !okN:
-			c.Undecided("token-split-kind", who, e.P.Pos(m.Split.Pos), "strings.SplitN with a non-constant limit")
-		case n >= 0 && n <= 2:
-			c.Fail("token-split-kind", who, e.P.Pos(m.Split.Pos), fmt.Sprintf("strings.SplitN(token, \":\", %d): a token with an extra ':' is no longer rejected as malformed (invalid vector) but by whatever the value parser makes of it", n))
-		default:
-			c.Ok("token-split-kind", who, e.P.Pos(m.Split.Pos), "SplitN limit does not hide extra colons")
-		}
+	colon := func(t *ir.Term) bool {
+		return t.Op == ir.OConst && t.C != nil && t.C.Kind() == constant.String && constant.StringVal(t.C) == ":"
+	}
+	var shape []*ir.Term // the conditions of a well-formed token
+	var name, val *ir.Term
+	allowed := map[string]bool{}
+	if cut != nil {
+		sepOK := len(cut.Args) == 2 && cut.Args[0].Key() == str.Key() && colon(cut.Args[1])
+		c.Check(sepOK, "token-split", who, e.P.Pos(cut.Pos), `the unmodified token is cut at the first ":"`, "the token is not taken apart as strings.Cut(<unmodified parameter>, \":\"): "+cut.Pretty())
+		name, val = ext(cut, 0), ext(cut, 1)
+		contains := ir.Call(e.externFunc(l.Pkg.Types, "strings", "Contains"), val, ir.Const(constant.MakeString(":"), types.Typ[types.String]))
+		shape = []*ir.Term{ext(cut, 2), ir.NotCond(contains), ir.Bin("!=", intConst(0), lenOf(name)), ir.Bin("!=", intConst(0), lenOf(val))}
+		allowed[cut.Key()] = true
+		allowed[contains.Key()] = true
+		// without the Contains test a second ':' would end up in the value part (the SplitN case below); the
+		// accept-path rule then reports the missing condition
+		c.Ok("token-split-kind", who, e.P.Pos(cut.Pos), "strings.Cut with a test that the rest holds no further ':': every ':' counts")
+		m.Split = cut
 	} else {
-		c.Ok("token-split-kind", who, e.P.Pos(m.Split.Pos), "strings.Split: every ':' counts")
+		sepOK := len(m.Split.Args) >= 2 && m.Split.Args[0].Key() == str.Key() && colon(m.Split.Args[1])
+		c.Check(sepOK, "token-split", who, e.P.Pos(m.Split.Pos), `the unmodified token is split at ":"`, "the token is not split as strings.Split(<unmodified parameter>, \":\"): "+m.Split.Pretty())
+		// strings.SplitN(token, ":", n) with 0 <= n <= 2 folds extra colons into the value part: the accepted
+		// language is unchanged (no value code contains ':'), but a token with an extra colon is then no longer
+		// classified as malformed (C11).
+		if isCallOf(m.Split, "strings.SplitN") {
+			n, okN := int64(-1), false
+			if len(m.Split.Args) == 3 && m.Split.Args[2].Op == ir.OConst && m.Split.Args[2].C != nil {
+				n, okN = constant.Int64Val(m.Split.Args[2].C)
+			}
+			switch {
+			case !okN:
+				c.Undecided("token-split-kind", who, e.P.Pos(m.Split.Pos), "strings.SplitN with a non-constant limit")
+			case n >= 0 && n <= 2:
+				c.Fail("token-split-kind", who, e.P.Pos(m.Split.Pos), fmt.Sprintf("strings.SplitN(token, \":\", %d): a token with an extra ':' is no longer rejected as malformed (invalid vector) but by whatever the value parser makes of it", n))
+			default:
+				c.Ok("token-split-kind", who, e.P.Pos(m.Split.Pos), "SplitN limit does not hide extra colons")
+			}
+		} else {
+			c.Ok("token-split-kind", who, e.P.Pos(m.Split.Pos), "strings.Split: every ':' counts")
+		}
+		sp := m.Split
+		name, val = idx(sp, 0), idx(sp, 1)
+		shape = []*ir.Term{ir.Bin("==", intConst(2), lenOf(sp)), ir.Bin("!=", intConst(0), lenOf(name)), ir.Bin("!=", intConst(0), lenOf(val))}
 	}
 	// delegation
 	if l.Lower != nil {
 		low := l.Lower.DecodeOne
 		m.Deleg = ir.Call(low, ir.Field(ir.Param(0), l.Embedded), str)
 	}
-	sp := m.Split
-	gLen := ir.Bin("==", intConst(2), lenOf(sp))
-	g0 := ir.Bin("!=", intConst(0), lenOf(idx(sp, 0)))
-	g1 := ir.Bin("!=", intConst(0), lenOf(idx(sp, 1)))
-	name := idx(sp, 0)
-	val := idx(sp, 1)
 	namesMap := ir.Field(ir.Param(0), l.Names)
 	dup := &ir.Term{Op: ir.OLookup, Args: []*ir.Term{namesMap, name}}
 	var dNil, dNonNil, dIs *ir.Term
@@ -214,7 +245,7 @@ func (e *Env) modelDecodeOne(l *facts.Level, rule string) *decodeOneModel {
 			if ef.Kind != "call" {
 				continue
 			}
-			if !e.decodeCallAllowed(ef.Val, l) {
+			if !allowed[ef.Val.Key()] && !e.decodeCallAllowed(ef.Val, l) {
 				bad(lf, "no-normalisation", "unexpected call on the token path: "+clip(ef.Val.Pretty()))
 			}
 		}
@@ -273,7 +304,7 @@ func (e *Env) modelDecodeOne(l *facts.Level, rule string) *decodeOneModel {
 				continue
 			}
 			arm.Accept = lf
-			need := []*ir.Term{gLen, g0, g1, ir.NotCond(dup)}
+			need := append(append([]*ir.Term{}, shape...), ir.NotCond(dup))
 			if m.Deleg != nil {
 				need = append(need, dNonNil, dIs)
 			}
@@ -344,7 +375,7 @@ func (e *Env) modelDecodeOne(l *facts.Level, rule string) *decodeOneModel {
 		last := lf.Guards[len(lf.Guards)-1]
 		ri := rejectInfo{Leaf: lf, Sentinel: sent, Cond: clip(last.Pretty())}
 		switch {
-		case last.Key() == ir.NotCond(gLen).Key() || last.Key() == ir.NotCond(g0).Key() || last.Key() == ir.NotCond(g1).Key():
+		case isNegOf(last, shape):
 			ri.Kind = "malformed"
 		case last.Key() == dup.Key():
 			ri.Kind = "duplicate"
@@ -405,14 +436,14 @@ func (e *Env) modelDecodeOne(l *facts.Level, rule string) *decodeOneModel {
 			if !hasGuard(lf, ir.NotCond(dup)) {
 				bad(lf, "duplicate-test", "the metric name is examined without first testing names[name] (duplicate detection)")
 			}
-			for _, g := range []*ir.Term{gLen, g0, g1} {
+			for _, g := range shape {
 				if !hasGuard(lf, g) {
 					bad(lf, "token-shape", "the metric name is examined without the token-shape condition "+g.Pretty())
 				}
 			}
 		}
 		if ri.Kind == "duplicate" {
-			for _, g := range []*ir.Term{gLen, g0, g1} {
+			for _, g := range shape {
 				if !hasGuard(lf, g) {
 					bad(lf, "token-shape", "names[name] is consulted without the token-shape condition "+g.Pretty())
 				}
@@ -504,11 +535,21 @@ func (e *Env) externFunc(from *types.Package, path, name string) *types.Func {
 	return nil
 }
 
+// isNegOf: g is the negation of one of the conditions.
+func isNegOf(g *ir.Term, conds []*ir.Term) bool {
+	for _, c := range conds {
+		if g.Key() == ir.NotCond(c).Key() {
+			return true
+		}
+	}
+	return false
+}
+
 // decodeCallAllowed: calls that may appear on a decodeOne path.
 func (e *Env) decodeCallAllowed(t *ir.Term, l *facts.Level) bool {
 	switch t.Op {
 	case ir.OBuiltin:
-		return t.Str == "len"
+		return t.Str == "len" || t.Str == "errors.Is"
 	case ir.OCall:
 		fn, _ := t.Obj.(*types.Func)
 		if fn == nil {
